@@ -596,7 +596,21 @@ def rule_refuse(ctx):
                 ctx.undecided("C17.refuse", wsc, name, "the scenario did not reach a key fetch: %s" % why)
             else:
                 ctx.check("C17.refuse", ok, wsc, name, why, "nothing is encrypted for a jid whose identity was refused")
-        return
+    else:
+        _refuse_callbacks_structural(ctx, repo)
+    # (d) receive handler, abstractly executed with decryption refused once: auto-trust off (or never configured) ->
+    # nothing is delivered, nothing stored, no second attempt
+    he = repo.method(RECV, "AxolotlReceivelayer", "handleEncMessage")
+    wr = where(RECV, "AxolotlReceivelayer.handleEncMessage", he.lineno)
+    oks = []
+    for flag in (False, None):
+        ups, trusted, attempts, raised, PROP = run_receive_untrusted(repo, flag)
+        oks.append(not ups and not trusted and attempts == 1 and raised is None)
+    ctx.check("C17.refuse", all(oks), wr, "except UntrustedIdentityException (auto-trust off)", "with auto-trust off the message must neither be delivered nor the key stored (option off: %s, option never set: %s)" % tuple(oks), "ignored: no delivery, no store")
+
+
+def _refuse_callbacks_structural(ctx, repo):
+    """fallback reading of the send-side key-fetch callbacks (used when the scenarios cannot be executed)"""
     snd = repo.cls(SEND, "AxolotlSendLayer")
     n_cb = 0
     for fname, fn in snd.methods.items():
@@ -634,15 +648,6 @@ def rule_refuse(ctx):
                 ctx.check("C17.refuse", not bad, wcb, t.stmt, "; ".join(bad), "nothing is encrypted for a jid whose identity was refused")
     if n_cb < 3:
         ctx.undecided("C17.refuse", where(SEND, "AxolotlSendLayer", None), "on_get_keys_success closures", "expected 3 key-fetch success callbacks in the send layer, found %d" % n_cb)
-    # (d) receive handler, abstractly executed with decryption refused once: auto-trust off (or never configured) ->
-    # nothing is delivered, nothing stored, no second attempt
-    he = repo.method(RECV, "AxolotlReceivelayer", "handleEncMessage")
-    wr = where(RECV, "AxolotlReceivelayer.handleEncMessage", he.lineno)
-    oks = []
-    for flag in (False, None):
-        ups, trusted, attempts, raised, PROP = run_receive_untrusted(repo, flag)
-        oks.append(not ups and not trusted and attempts == 1 and raised is None)
-    ctx.check("C17.refuse", all(oks), wr, "except UntrustedIdentityException (auto-trust off)", "with auto-trust off the message must neither be delivered nor the key stored (option off: %s, option never set: %s)" % tuple(oks), "ignored: no delivery, no store")
 
 
 def rule_auto(ctx):
@@ -756,7 +761,7 @@ def rule_persist(ctx):
 def run(ctx):
     ctx.rule("C17.trust", "trusted iff unknown or equal to the stored key of that recipient", floor=4)
     ctx.rule("C17.guard", "pin overwrites are control-dependent on the auto-trust switch (default off)", floor=4)
-    ctx.rule("C17.refuse", "refuse paths without auto-trust", floor=7)
+    ctx.rule("C17.refuse", "refuse paths without auto-trust", floor=8)
     ctx.rule("C17.author", "decryption (and with it the identity check) uses the author's session: participant when present (C03.once adopted)", floor=4)
     ctx.rule("C17.persist", "pin committed and read back by the same key", floor=3)
     ctx.rule("C17.auto", "auto-trust stores the presented key and resumes", floor=4)
